@@ -17,7 +17,8 @@ import (
 
 // C11 – no externally supplied bytes can crash a station or registrar process.
 //
-// Thirteen driver stages (one per repository package that owns an external entry point), each a
+// Fourteen driver stages (one per repository package that owns an external entry point, plus the
+// valid-tag flights against the connection handler), each a
 // child process running the seeded structure-aware generator against the real entry points with
 // per-case panic capture, a crash-surviving flight recorder and a per-input watchdog.  The stages are
 // independent processes, so this property runs them four at a time (from Post, each with a private
@@ -30,6 +31,7 @@ import (
 var c11Stages = []Stage{
 	{Name: "lib", Pkg: "./pkg/station/lib", Run: "^TestVerifC11Lib$", Drivers: []string{"lib"}, Exports: []string{"lib", "cdtls", "dnat"}, Netns: true},
 	{Name: "app", Dir: "cmd/application", Pkg: ".", Run: "^TestVerifC11Handler$", Drivers: []string{"app"}, Exports: []string{"lib"}},
+	{Name: "validflights", Dir: "cmd/application", Pkg: ".", Run: "^TestVerifC11ValidFlights$", Drivers: []string{"app"}, Exports: []string{"lib"}},
 	{Name: "apireg", Pkg: "./pkg/regserver/apiregserver", Run: "^TestVerifC11API$", Drivers: []string{"apireg"}, Exports: []string{"regproc"}},
 	{Name: "dnsreg", Pkg: "./pkg/regserver/dnsregserver", Run: "^TestVerifC11DNS$", Drivers: []string{"dnsreg"}, Exports: []string{"regproc", "responder"}},
 	{Name: "regproc", Pkg: "./pkg/regserver/regprocessor", Run: "^TestVerifC11Regproc$", Drivers: []string{"regproc"}, Exports: []string{"lib"}},
@@ -85,11 +87,15 @@ func init() {
 			"register / registerBidirectional behind a real net/http server; Noise-encrypted DNS request -> processRequest behind the real RecvAndRespond on UDP; " +
 			"decoded wrapper -> RegisterBidirectional / RegisterUnidirectional / processBdReq / processC2SWrapper; (library version, Any) -> every transport's " +
 			"station- and client-side ParseParams; datagram -> the responder's packet handling; DNS wire format, TXT RDATA and length framing decoders; obfuscated " +
-			"tags -> TryReveal), produced by the seeded generator as a pure function of (seed, entry point, case index): valid protobufs with exactly one to three " +
+			"tags -> TryReveal; plus the stage validflights: flights carrying a CORRECT tag for registrations of every shape the real ingest admits, see below), " +
+			"produced by the seeded generator as a pure function of (seed, entry point, case index): valid protobufs with exactly one to three " +
 			"things wrong, protobufs with every sub-message independently absent / empty / wrong-length / out-of-range / mistyped, raw mutations of valid " +
 			"encodings (bit flips, truncations, splices, length-field tampering) and random bytes; evaluations = cases executed to completion under the oracle " +
 			"(no panic in any goroutine, return within the per-input watchdog, an HTTP status line); distinct_nontrivial = distinct (entry point, generator " +
-			"descriptor, outcome class) triples over non-empty inputs; thorough additionally counts coverage-guided fuzz executions per target (fuzz_executions)",
+			"descriptor, outcome class) triples over non-empty inputs; validflights: a case = (admitted registration shape: transport x transport_params variant x " +
+			"library version x generation x family x what the station stored, flight kind: genuine under every prefix id / + data / cut / damaged around the intact tag / " +
+			"split at a cut / cross-transport identifier), sent to each WrapConnection and through handleNewTCPConn, and the stage is an ERROR unless every wrapping " +
+			"transport returned a registration at least once; thorough additionally counts coverage-guided fuzz executions per target (fuzz_executions)",
 		Assumptions: []string{
 			"operator-supplied configuration is fixed and valid (test phantom subnets, override subnets with known prefix ids, a ConnectingStats sink): configuration-only panics are C19's subject",
 			"stand-ins: liveness stub, fake Redis, /dev/null as the tun device, loopback DTLS listener on a random port, DNS resolver that fails at once, recorder instead of the ZMQ socket; no MaxMind database exists here, so GeoIP lookups run against the empty database only",
